@@ -166,6 +166,10 @@ class BuiltinMixin:
             if ln is None:
                 if k == "emptytuple":
                     return [Res(s, SV(vint(0), TINT))]
+                if k == "str":
+                    f = z3.Function("str_len", Val, I)
+                    s.assume(f(x.t) >= 0)
+                    return [Res(s, SV(vint(f(x.t)), TINT))]
                 raise Untranslatable(f"len of {x.ty}")
             s.assume(ln(a) >= 0)
             if k == "dict":
@@ -435,6 +439,29 @@ class BuiltinMixin:
             f = z3.Function("str_contains", Val, Val, B)
             st.assume(z3.Implies(z3.And(f(s_.t, sep), Val.i(mx) != 0), ln >= 2))
         return [Res(st, SV(vref(a), LIST(TSTR)))]
+
+    def m_str_join(self, st, s_, pos, kw, node):
+        """sep.join(parts): an opaque string (uninterpreted function of separator and argument; strings are atoms)"""
+        f = z3.Function("str_join", Val, Val, I)
+        return [Res(st, self.typed(st, Val.str(f(s_.t, pos[0].t)), TSTR))]
+
+    def m_list_extend(self, st, l, pos, kw, node):
+        """list.extend(other list): appends the items of `other` in order"""
+        a = Val.a(l.t)
+        o = pos[0]
+        if strip_opt(o.ty).kind != "list":
+            raise Untranslatable(f"list.extend({o.ty})")
+        b = Val.a(o.t)
+        n, m = st.l_len(a), st.l_len(b)
+        i = z3.Const("i!ext", I)
+        old_items, add_items = z3.Select(st.heap["l_item"], a), z3.Select(st.heap["l_item"], b)
+        new_items = fresh("ext_items", IV)
+        st.assume(n >= 0, m >= 0,
+                  z3.ForAll([i], z3.Select(new_items, i) == z3.If(z3.And(i >= n, i < n + m), z3.Select(add_items, i - n), z3.Select(old_items, i)),
+                            patterns=[z3.Select(new_items, i)]))
+        st.heap["l_item"] = z3.Store(st.heap["l_item"], a, new_items)
+        st.heap["l_len"] = z3.Store(st.heap["l_len"], a, n + m)
+        return [Res(st, NONE_SV)]
 
     def m_str_replace(self, st, s_, pos, kw, node):
         """str.replace(old, new) on opaque strings: an uninterpreted function of its three arguments"""
